@@ -30,12 +30,13 @@ OWN = {
     "C11": {"body-before-pre-handler", "state-trail-mismatch", "pre-handler-twice", "pre-handler-of-node-not-triggered",
             "pre-handler-without-state", "rerun-input-not-rebuilt-from-state", "state-update-lost-or-state-not-fresh",
             "post-handler-not-after-its-node", "successor-started-before-post-handler", "state-access-without-state",
-            "state-access-in-unknown-frame"},
+            "state-access-in-unknown-frame", "state-access-blocked-after-callback-panic"},
 }
 SHARED = {"interrupt-while-node-running": {"C05", "C06"}, "interrupt-info-state-mismatch": {"C05", "C06", "C11"},
           "state-trail-mismatch": {"C05", "C11"}, "rerun-input-not-rebuilt-from-state": {"C05", "C11"},
           "pre-handler-of-node-not-triggered": {"C05", "C11"}, "pre-handler-twice": {"C05", "C11"},
           "state-update-lost-or-state-not-fresh": {"C05", "C11"},
+          "state-access-blocked-after-callback-panic": {"C11", "C13"},
           "run-hangs": {"C01", "C02", "C03", "C05", "C13"}, "panic-escaped-the-run": {"C05", "C13", "C01", "C02"}}
 
 
